@@ -101,6 +101,7 @@ func Parts() []mc.Part {
 		// the contract of the (scale 6) token is deployed with 3 decimals: conversions still move exactly the converted amount
 		mc.ExplorePart("erc20-contract-decimals-3", New(Variant{Name: "erc20-contract-decimals-3", Ratio: "1", ContractScale: 3}), 4, 5, false, rule),
 		mc.ExplorePart("feeswap-ratio-1", New(Variant{Name: "feeswap-ratio-1", FeeSwap: true, Ratio: "1"}), 4, 5, false, rule),
+		mc.ExplorePart("feeswap-near-max-supply", New(Variant{Name: "feeswap-near-max-supply", FeeSwap: true, Ratio: "1", NearCap: true}), 3, 4, false, rule),
 		mc.ExplorePart("feeswap-late-issue", New(Variant{Name: "feeswap-late-issue", FeeSwap: true, Ratio: "1", LateIssue: true}), 4, 5, false, rule),
 		mc.ExplorePart("feeswap-ratio-0.5", New(Variant{Name: "feeswap-ratio-0.5", FeeSwap: true, Ratio: "0.5"}), 4, 5, false, rule),
 		mc.ExplorePart("feeswap-ratio-third", New(Variant{Name: "feeswap-ratio-third", FeeSwap: true, Ratio: "0.333333333333333333"}), 4, 5, false, rule),
